@@ -3,7 +3,7 @@
 # (re)run build + full suite, run the listed property checks; silent ones are stored in /verif/variants/benign/Bk-N.
 export GOFLAGS=-mod=mod GOPROXY=off GOSUMDB=off GOTOOLCHAIN=local
 b=$1
-declare -A PROPS=( [B1]="C01 C02 C03 C04 C06 C12 C19" [B2]="C01 C03 C04 C05 C08 C10 C12 C18" [B3]="C13 C14 C20" [B4]="C04 C15 C16 C20" [B5]="C17 C18 C19" [B6]="C01 C07 C08 C09 C11" [B7]="C17 C18" [B8]="C04 C06 C08 C10 C15" [B9]="C01 C07 C08 C09 C11" [B10]="C01 C02 C03 C04 C05 C10 C12" [B11]="C13 C14 C20" [B12]="C03 C05 C08 C10 C11 C19" [B13]="C01 C02 C03 C04 C05 C06 C12" [B14]="C01 C02 C03 C04 C05 C06 C12 C19 C20" [B15]="C07 C08" [B16]="C09 C11 C01" [B17]="C05 C08 C10 C11 C12 C01" [B18]="C17 C18 C19" [B19]="C15 C16 C20 C04" [B20]="C13 C14 C20 C15" [B21]="C04 C06 C08 C10 C15 C20" [B22]="C19 C06" [B23]="C11 C09 C01" [B24]="C15 C20 C01 C03 C05 C11" [B25]="C01 C02 C03 C04 C05 C06 C11 C12" [B26]="C01 C05 C08 C10 C11 C12" [B27]="C13 C14 C15 C16 C20" [B28]="C15 C16 C20 C04" [B29]="C17 C18 C19" [B30]="C01 C07 C08 C09 C10 C15" [B31]="C01 C02 C03 C04 C06 C12" [B32]="C17 C18 C19 C11" [B33]="C08 C01 C10 C13 C07" [B34]="C13 C14 C20" [B35]="C20 C09 C11 C15" [B36]="C07 C08 C10 C14 C18" [B37]="C07 C08 C13 C14 C20" [B38]="C01 C02 C03 C04 C06 C12 C20" [B39]="C09 C11 C05 C03 C10" [B40]="C16 C15 C20 C04" [B41]="C13 C14 C15 C20" [B42]="C15 C16 C13 C20" [B43]="C03 C05 C10 C11 C12 C01" [B44]="C06 C08 C10 C15 C20 C04" [B45]="C17 C18 C10" [B46]="C08 C10 C12 C13 C01 C11" [B47]="C19 C02 C06 C18" )
+declare -A PROPS=( [B1]="C01 C02 C03 C04 C06 C12 C19" [B2]="C01 C03 C04 C05 C08 C10 C12 C18" [B3]="C13 C14 C20" [B4]="C04 C15 C16 C20" [B5]="C17 C18 C19" [B6]="C01 C07 C08 C09 C11" [B7]="C17 C18" [B8]="C04 C06 C08 C10 C15" [B9]="C01 C07 C08 C09 C11" [B10]="C01 C02 C03 C04 C05 C10 C12" [B11]="C13 C14 C20" [B12]="C03 C05 C08 C10 C11 C19" [B13]="C01 C02 C03 C04 C05 C06 C12" [B14]="C01 C02 C03 C04 C05 C06 C12 C19 C20" [B15]="C07 C08" [B16]="C09 C11 C01" [B17]="C05 C08 C10 C11 C12 C01" [B18]="C17 C18 C19" [B19]="C15 C16 C20 C04" [B20]="C13 C14 C20 C15" [B21]="C04 C06 C08 C10 C15 C20" [B22]="C19 C06" [B23]="C11 C09 C01" [B24]="C15 C20 C01 C03 C05 C11" [B25]="C01 C02 C03 C04 C05 C06 C11 C12" [B26]="C01 C05 C08 C10 C11 C12" [B27]="C13 C14 C15 C16 C20" [B28]="C15 C16 C20 C04" [B29]="C17 C18 C19" [B30]="C01 C07 C08 C09 C10 C15" [B31]="C01 C02 C03 C04 C06 C12" [B32]="C17 C18 C19 C11" [B33]="C08 C01 C10 C13 C07" [B34]="C13 C14 C20" [B35]="C20 C09 C11 C15" [B36]="C07 C08 C10 C14 C18" [B37]="C07 C08 C13 C14 C20" [B38]="C01 C02 C03 C04 C06 C12 C20" [B39]="C09 C11 C05 C03 C10" [B40]="C16 C15 C20 C04" [B41]="C13 C14 C15 C20" [B42]="C15 C16 C13 C20" [B43]="C03 C05 C10 C11 C12 C01" [B44]="C06 C08 C10 C15 C20 C04" [B45]="C17 C18 C10" [B46]="C08 C10 C12 C13 C01 C11" [B47]="C19 C02 C06 C18" [B48]="C01 C02 C03 C04 C05 C06 C10 C11 C12" [B49]="C13 C14 C15 C16 C20" [B50]="C07 C08 C09 C10 C11 C18" [B51]="C04 C15 C17 C19 C02 C11" )
 props=${PROPS[$b]}
 for d in /tmp/benign/$b/out/*/; do
   n=$(basename $d); name=$b-$n
